@@ -85,6 +85,7 @@ type FuncContract struct {
 	GhostEntry []GhostAssign          // ghost assignments executed on entry
 	CallAsserts map[string][]*Clause   // assertions at calls of the named callee (callee parameter names in scope)
 	SendAssert []*Clause // assertions at every send site in this function (bound var e)
+	SiteGhosts []*SiteGhost // ghost assignments executed at map-update sites selected by static map type
 	Walkrels   []*Clause // two-state relations over ghost state satisfied by every call of this callback; must be reflexive and transitive
 	Walkpost   *WalkPost // the function is a tree-walk callback: per-entry postcondition used to summarise the walk
 	Line       int
@@ -105,6 +106,15 @@ type Cut struct {
 	Field string
 	C     *Clause
 	Hit   bool
+}
+
+// SiteGhost: `siteghost mapupdate(TYPE) G = EXPR` - ghost code at every store into a map of that static type (m, k, v in scope)
+type SiteGhost struct {
+	Kind    string
+	MapType string
+	Ghost   string
+	E       Expr
+	Src     string
 }
 
 type SiteAssert struct {
@@ -167,7 +177,7 @@ type ContractFile struct {
 var directiveKw = map[string]bool{
 	"ghost": true, "on": true, "pred": true, "spec": true, "func": true, "requires": true, "ensures": true,
 	"modifies": true, "let": true, "safety": true, "loop": true, "assume": true, "lemma": true,
-	"extern": true, "axiom": true, "canary": true, "callassert": true, "siteassert": true, "cut": true, "guarded_by": true, "lockinv": true, "lockctx": true, "trusted": true, "sendassert": true, "walkpost": true, "walkrel": true,
+	"extern": true, "axiom": true, "canary": true, "callassert": true, "siteassert": true, "cut": true, "guarded_by": true, "lockinv": true, "lockctx": true, "trusted": true, "sendassert": true, "walkpost": true, "walkrel": true, "siteghost": true,
 }
 
 var tagRe = regexp.MustCompile(`^\[([A-Za-z0-9_,! ]*)\]\s*`)
@@ -349,6 +359,19 @@ func parseContractFile(path, pkg string, cf *ContractFile) error {
 				os.Assigns = append(os.Assigns, GhostAssign{strings.TrimSpace(a[:k]), e})
 			}
 			cf.OnSends = append(cf.OnSends, os)
+		case "siteghost":
+			if cur == nil {
+				return fail(fmt.Errorf("siteghost outside func"))
+			}
+			m := regexp.MustCompile(`^(mapupdate)\((.*?)\)\s+(\w+)\s*=\s*(.*)$`).FindStringSubmatch(rest)
+			if m == nil {
+				return fail(fmt.Errorf("bad siteghost"))
+			}
+			e, err := parseExpr(m[4])
+			if err != nil {
+				return fail(err)
+			}
+			cur.SiteGhosts = append(cur.SiteGhosts, &SiteGhost{Kind: m[1], MapType: m[2], Ghost: m[3], E: e, Src: m[4]})
 		case "walkrel":
 			// walkrel [tags] EXPR  -- a relation between old(...) and current GHOST state that every call of the callback satisfies
 			if cur == nil {
